@@ -49,3 +49,5 @@ CFG["manifest"] = dict(
           "below the base are not part of this property."),
     technique="Coq proof (segment stack machine, normal-form invariant) + exhaustive/random differential correspondence + filepath.Rel oracle",
 )
+import go2coq  # noqa: E402  (second tie: the model regenerated from the source on every run)
+CFG["secondary"] = CFG.get("secondary", []) + [go2coq.C17_SRC]
